@@ -534,7 +534,11 @@ def _apply_group_method_single_chunk(
 
 @nb.njit(parallel=True, cache=True)
 def reduce_array_pair(
-    x: np.ndarray, y: np.ndarray, reducer: Callable, counts: Optional[np.ndarray] = None
+    x: np.ndarray,
+    y: np.ndarray,
+    reducer: Callable,
+    counts: Optional[np.ndarray] = None,
+    other_counts: Optional[np.ndarray] = None,
 ):
     """
     Apply a reduction function element-wise to pairs of arrays using parallel processing.
@@ -580,6 +584,9 @@ def reduce_array_pair(
     """
     out = x.copy()
     for i in nb.prange(len(x)):
+        if other_counts is not None and other_counts[i] == 0:
+            # y holds no observation for this group, only its initial value
+            continue
         if counts is None:
             count = 1
         else:
@@ -725,8 +732,13 @@ def combine_chunk_results_for_factorized_key(
         combined_count = counts[0]
 
     for chunk, count in zip(chunks[1:], counts[1:]):
+        have_counts = isinstance(count, np.ndarray)
         combined = reduce_array_pair(
-            combined, chunk, getattr(ScalarFuncs, reduce_func_name)
+            combined,
+            chunk,
+            getattr(ScalarFuncs, reduce_func_name),
+            counts=combined_count if have_counts else None,
+            other_counts=count if have_counts else None,
         )
         combined_count = combined_count + count
 
